@@ -307,7 +307,9 @@ def run(db: DB, rep: Report) -> None:
         vt = norm(v)
         tests = [(paths.inlined_text(a, gd.node), p_) for t, pol in list(paths.guards(r, stop=gd.node)) + extra
                  for a, p_ in paths.conjuncts(t, pol)]
-        exists = any(p_ and vt in t_ and (" in " in t_) and "not in" not in t_ for t_, p_ in tests)
+        # membership of that very name: `RankNode(x) in graph.nodes` or networkx's has_node(RankNode(x))
+        exists = any(p_ and vt in t_ and ((" in " in t_ and "not in" not in t_) or ".has_node(" in t_)
+                     for t_, p_ in tests)
         graphy = bool(tests) and all(("RankNode" in t_ or "self.graph" in t_ or "is_flattened" in t_)
                                      for t_, _ in tests)
         rep.check("D12", exists, db.loc(r), gd.short, "dyn-rank:" + vt[:40],
